@@ -1,6 +1,8 @@
 import LJT.Proofs.SeqHuff
 import LJT.Proofs.Suspend
 import LJT.Gen.Tables
+import LJT.Gen.Src
+import LJT.Proofs.DecBudget
 /-! # C01 - decoding arbitrary bytes is memory-safe, terminating and error-reporting
 
 What a theorem can carry of this property: statements for *every* bit string about the model
@@ -100,5 +102,27 @@ example : ChunkRun segStep 0 [0xFF, 0xFE, 0, 2, 0xFF, 0xE0, 0, 3, 9, 0xD9] [] 2 
   apply ChunkRun.adv _ _ _ 1 4 _ _ (by decide)
   apply ChunkRun.adv _ _ _ 2 5 _ _ (by decide)
   exact ChunkRun.done _ _ (by decide)
+
+/-- **The unchecked fast path of the Huffman decoder has enough input** (src/jdhuff.c
+`decode_mcu`: `decode_mcu_fast` reads the source buffer through a bare pointer and is chosen only
+when at least `BUFSIZE` bytes per block of the MCU are in the buffer).  Whatever the bit string and
+the tables: a block that the model decoder decodes consumes at most 1985 bits; in the source buffer
+every byte of them may be a 0xFF followed by a stuffed zero, and the bit-buffer refill reads up to
+6 more data bytes (12 with stuffing) ahead of what is consumed.  That total fits `BUFSIZE` as it
+stands in the source (regenerated on every run). -/
+theorem decoder_fast_path_budget (ddc dac : DDerived) (hsym : ∀ v ∈ ddc.vals, v ≤ 16) (bits : List Bool)
+    (diff : Int) (ac : List Int) (rest : List Bool) (h : decodeBlock ddc dac bits = some (diff, ac, rest)) :
+    2 * ((bits.length - rest.length + 7) / 8) + 12 ≤ Gen.Src.jdhuff_BUFSIZE := by
+  obtain ⟨n, hn, hb⟩ := decodeBlock_consumes ddc dac hsym bits diff ac rest h
+  have : bits.length - rest.length = n := by omega
+  rw [this]
+  have : (n + 7) / 8 ≤ 249 := by omega
+  simp [Gen.Src.jdhuff_BUFSIZE]
+  omega
+
+/-- non-vacuity: the bound is nearly tight (1985 bits -> 249 bytes -> 498 stuffed + 12 = 510 of 512),
+and the Annex K DC table delivers only categories -/
+example : 2 * ((1985 + 7) / 8) + 12 = 510 ∧ Gen.Src.jdhuff_BUFSIZE = 512 ∧ (∀ v ∈ Gen.stdDcLumVals, v ≤ 16) := by
+  decide
 
 end LJT.Props.C01
